@@ -230,6 +230,27 @@ def check_case(case) -> Result:
                        inner=[k, l], **ctx)
             break
 
+    # ---- slice of an equal annotation whose containers were filled in another order ----
+    if pep['internal'] or len(pep['intervals']) >= 2:
+        d = a0.dict()
+        if d['internal_mods']:
+            d['internal_mods'] = {k: d['internal_mods'][k] for k in sorted(d['internal_mods'], reverse=True)}
+        if d['intervals']:
+            d['intervals'] = list(reversed(d['intervals']))
+        twin = pt.create_annotation(**d)
+        for (i, j) in case['slices'][:3]:
+            i, j = min(i, n), min(j, n)
+            if i > j:
+                i, j = j, i
+            if not (_cuts_ok(pep, i) and _cuts_ok(pep, j)):
+                continue
+            x, y = model.sorted_proj(model.project(a0.slice(i, j))), model.sorted_proj(model.project(twin.slice(i, j)))
+            if _sub(x, CMP_SLICE) != _sub(y, CMP_SLICE):
+                fields = [f for f in CMP_SLICE if x[f] != y[f]]
+                r.fail('slicing does not depend on the order in which the modification containers were filled',
+                       'C11/slice/container-order-dependent/' + '+'.join(fields), bounds=[i, j], **ctx)
+                break
+
     # ---- slice of a reversed peptide (interval list no longer in sequence order) ----
     if pep['intervals']:
         rev = model.m_reverse(pep)
